@@ -219,8 +219,8 @@ Core == {
   Batch(2) }
 Keys == {
   Select(<<IP(NX)>>, <<OP(NX)>>), Select(<<IP(A), IP(NX)>>, <<OP(C), OP(D)>>), Select(<<IP(SELF)>>, <<OP(SELF)>>), Select(<<IP(A)>>, <<OP(SELF)>>),
-  Select(<<IP(A), IP(B)>>, <<OP(SELF)>>), Select(<<IP(A), IL(7)>>, <<OP(C), OP(D)>>),
-  Apply("pair", <<IP(A)>>, <<OP(SELF)>>), Apply("pair", <<IP(A)>>, <<OP(C)>>), Apply("pair", <<IP(A)>>, <<OP(C), OP(SKIP)>>),
+  Select(<<IP(A), IP(B)>>, <<OP(SELF)>>), Select(<<IP(A), IL(7)>>, <<OP(C), OP(D)>>), Select(<<IP(A), IP(B)>>, <<OP(SKIP), OP(D)>>),
+  Apply("pair", <<IP(A)>>, <<OP(SELF)>>), Apply("pair", <<IP(A)>>, <<OP(C)>>), Apply("pair", <<IP(A)>>, <<OP(C), OP(SKIP)>>), Apply("pair", <<IP(A)>>, <<OP(SKIP), OP(C)>>),
   ApplyKw("sub", <<IP(A), IP(B)>>, <<"y", "x">>, <<OP(C)>>), Apply("sumab", <<IP(SELF)>>, <<OP(C)>>), Apply("const7", <<>>, <<OP(C)>>),
   Apply("sub", <<IP(A), IL(7)>>, <<OP(C)>>), Apply("mkdict", <<IP(A)>>, <<OM(<<"c">>, <<"q">>)>>), Apply("inc", <<IP(NX)>>, <<OP(NY)>>),
   Apply("mkdict", <<IP(A)>>, <<OP(SELF)>>),
